@@ -15,8 +15,10 @@ import (
 	"fmt"
 	"go/ast"
 	"go/format"
+	"go/importer"
 	"go/parser"
 	"go/token"
+	"go/types"
 	"os"
 	"os/exec"
 	"path/filepath"
@@ -49,7 +51,7 @@ func main() {
 	copyFile(filepath.Join(repo, "go.sum"), filepath.Join(build, "go.sum"))
 
 	// 2. rewritten sources
-	for _, pkg := range []string{".", "driver"} {
+	for _, pkg := range []string{".", "driver", "internal/openfile"} {
 		dir := filepath.Join(repo, pkg)
 		ents, err := os.ReadDir(dir)
 		if err != nil {
@@ -68,6 +70,12 @@ func main() {
 			}
 		}
 	}
+
+	// 2b. generated package zzverif/vos: package os with a scheduling point before every file-system operation
+	vosFile := filepath.Join(build, "gen", "vos", "vos.go")
+	must(os.MkdirAll(filepath.Dir(vosFile), 0o755))
+	must(os.WriteFile(vosFile, genVos(), 0o644))
+	overlay[filepath.Join(repo, "zzverif", "vos", "vos.go")] = vosFile
 
 	// 3. harness packages -> virtual packages
 	must(filepath.Walk(harness, func(p string, info os.FileInfo, err error) error {
@@ -309,6 +317,13 @@ func rewrite(src, out string) bool {
 			}
 			im.Path.Value = strconv.Quote(modPath + "/zzverif/vatomic")
 			changed = true
+		case "os":
+			// file-system operations become scheduling points (check-then-act sequences on files interleave there)
+			if im.Name == nil {
+				im.Name = ast.NewIdent("os")
+			}
+			im.Path.Value = strconv.Quote(modPath + "/zzverif/vos")
+			changed = true
 		}
 	}
 	// go statements: `go f(a, b)` -> `sync.Go(func() { f(a, b) })` with arguments evaluated first.
@@ -509,4 +524,104 @@ func rewriteGo(f *ast.File, syncName string) {
 		}
 		return true
 	})
+}
+
+// vosPoints: the functions of package os that observe or change the file system by name: each gets a scheduling point.
+var vosPoints = map[string]bool{"OpenFile": true, "Open": true, "Create": true, "CreateTemp": true, "Remove": true, "RemoveAll": true,
+	"Rename": true, "Stat": true, "Lstat": true, "Mkdir": true, "MkdirAll": true, "MkdirTemp": true, "ReadFile": true, "WriteFile": true,
+	"Symlink": true, "Link": true, "Truncate": true, "Chmod": true, "Chtimes": true, "ReadDir": true, "Readlink": true, "Chown": true, "Lchown": true}
+
+// genVos generates package vos from the export data of package os: every exported type, constant, variable and function
+// is re-exported (so that rewritten sources compile unchanged whatever they use); the functions in vosPoints announce
+// themselves to the scheduler first.
+func genVos() []byte {
+	fset := token.NewFileSet()
+	pkg, err := importer.ForCompiler(fset, "source", nil).Import("os")
+	if err != nil {
+		die("cannot load package os: %v", err)
+	}
+	imports := map[string]string{"os": "os"}
+	qual := func(p *types.Package) string {
+		if p.Path() == "os" {
+			return "os"
+		}
+		name := "zz" + strings.ReplaceAll(strings.ReplaceAll(p.Path(), "/", "_"), ".", "_")
+		imports[p.Path()] = name
+		return name
+	}
+	var body bytes.Buffer
+	names := pkg.Scope().Names()
+	idx := 0
+	for _, n := range names {
+		obj := pkg.Scope().Lookup(n)
+		if !obj.Exported() {
+			continue
+		}
+		switch o := obj.(type) {
+		case *types.TypeName:
+			tp := ""
+			if named, ok := o.Type().(*types.Named); ok && named.TypeParams().Len() > 0 {
+				continue // no generic types in package os
+			}
+			fmt.Fprintf(&body, "type %s%s = os.%s\n", n, tp, n)
+		case *types.Const:
+			fmt.Fprintf(&body, "const %s = os.%s\n", n, n)
+		case *types.Var:
+			fmt.Fprintf(&body, "var %s = os.%s\n", n, n)
+		case *types.Func:
+			sig := o.Type().(*types.Signature)
+			if sig.TypeParams().Len() > 0 {
+				continue
+			}
+			var params, args []string
+			for i := 0; i < sig.Params().Len(); i++ {
+				pv := sig.Params().At(i)
+				ts := types.TypeString(pv.Type(), qual)
+				arg := fmt.Sprintf("a%d", i)
+				if sig.Variadic() && i == sig.Params().Len()-1 {
+					ts = "..." + strings.TrimPrefix(ts, "[]")
+					arg += "..."
+				}
+				params = append(params, fmt.Sprintf("a%d %s", i, ts))
+				args = append(args, arg)
+			}
+			var results []string
+			for i := 0; i < sig.Results().Len(); i++ {
+				results = append(results, types.TypeString(sig.Results().At(i).Type(), qual))
+			}
+			res := ""
+			if len(results) > 0 {
+				res = " (" + strings.Join(results, ", ") + ")"
+			}
+			fmt.Fprintf(&body, "func %s(%s)%s {\n", n, strings.Join(params, ", "), res)
+			if vosPoints[n] {
+				idx++
+				fmt.Fprintf(&body, "\tvsched.Point(vsched.OpAtomic, %d, 0) // file-system operation\n", 0x7000+idx)
+			}
+			call := fmt.Sprintf("os.%s(%s)", n, strings.Join(args, ", "))
+			if len(results) > 0 {
+				fmt.Fprintf(&body, "\treturn %s\n}\n", call)
+			} else {
+				fmt.Fprintf(&body, "\t%s\n}\n", call)
+			}
+		}
+	}
+	var out bytes.Buffer
+	out.WriteString("// Code generated by /verif/tools/prep from the export data of package os. DO NOT EDIT.\n\n")
+	out.WriteString("// Package vos is package os with a scheduling point before every operation that observes or changes the file system by name.\npackage vos\n\nimport (\n")
+	var paths []string
+	for p := range imports {
+		paths = append(paths, p)
+	}
+	sort.Strings(paths)
+	for _, p := range paths {
+		fmt.Fprintf(&out, "\t%s %q\n", imports[p], p)
+	}
+	fmt.Fprintf(&out, "\t%q\n)\n\n", modPath+"/zzverif/vsched")
+	out.Write(body.Bytes())
+	src, err := format.Source(out.Bytes())
+	if err != nil {
+		die("generated vos does not format: %v\n%s", err, out.String())
+	}
+	return src
 }
